@@ -75,6 +75,8 @@ pub enum Act {
     DialOver { cond: u8 },
     /// the behaviour notifies "any handler" of peer p, whether or not p is connected
     NotifyAny { p: u8 },
+    /// the muxer of live connection `c` reports an address change (connection migration)
+    MuxAddr { c: usize },
 }
 
 #[derive(Clone, Copy, Debug, PartialEq, Eq, Serialize, Deserialize)]
@@ -242,6 +244,8 @@ where
     limit_hit: bool,
     /// the reference (events folded so far) is exact: nothing was runnable when the action began
     quiescent_ref: bool,
+    /// C58: connections whose muxer was told to report an address change
+    addr_changed: Vec<usize>,
 }
 
 const HORIZON: u64 = 2000;
@@ -258,7 +262,11 @@ where
         let probe = B::make(log.clone(), &cfg);
         let scfg = SysCfg { exec: if cfg.local_exec { Exec::Local } else { Exec::Harness }, explore_schedule: cfg.explore_schedule, ..Default::default() };
         let sys = SwarmSys::new(probe, log, scfg);
-        let mut s = Sys { cfg, sys, conns: vec![], sw_seq: vec![], fs_seq: vec![], listener_up: false, drained: false, violation: None, att_owner: vec![], pending_in_cid: Default::default(), pending_out_pos: vec![], horizon_hits: 0, mismatch_resolved: false, forbidden: Default::default(), forbid_count: 0, doomed: vec![], notified: vec![], notify_seq: 0, full_log: vec![], limit_hit: false, quiescent_ref: true };
+        let mut s = Sys { cfg, sys, conns: vec![], sw_seq: vec![], fs_seq: vec![], listener_up: false, drained: false, violation: None, att_owner: vec![], pending_in_cid: Default::default(), pending_out_pos: vec![], horizon_hits: 0, mismatch_resolved: false, forbidden: Default::default(), forbid_count: 0, doomed: vec![], notified: vec![], notify_seq: 0, full_log: vec![], limit_hit: false, quiescent_ref: true, addr_changed: vec![] };
+        if s.cfg.which == Which::C05 && s.cfg.slow_close > 0 {
+            // every muxer closes asynchronously (Pending twice, then Ok)
+            s.sys.ctl.lock().unwrap().default_close = Some(CloseAns::Slow);
+        }
         s.ensure_listener();
         let sched = std::mem::replace(&mut s.sys.explore_schedule, false);
         // start states: 0 = initial, 1 = [P1], 2 = [P1, P1], 3 = [P1, P2] already established
@@ -820,6 +828,11 @@ where
                 if self.conns.len() < self.cfg.max_conns % 10 {
                     v.push(Act::DialExt);
                 }
+                if self.addr_changed.is_empty() {
+                    for &c in &live {
+                        v.push(Act::MuxAddr { c });
+                    }
+                }
             }
             _ => {}
         }
@@ -892,7 +905,7 @@ where
     pub fn applicable(&self, act: &Act) -> bool {
         match act {
             Act::Ok { k, .. } | Act::Fail { k } => self.sys.ctl.lock().unwrap().attempts.get(*k).map(|a| a.open()).unwrap_or(false),
-            Act::Close { c } | Act::MuxFail { c } | Act::BehClose { c: Some(c), .. } | Act::Notify { c, .. } | Act::MuxClose { c, .. } => self.live().contains(c),
+            Act::Close { c } | Act::MuxFail { c } | Act::BehClose { c: Some(c), .. } | Act::Notify { c, .. } | Act::MuxClose { c, .. } | Act::MuxAddr { c } => self.live().contains(c),
             _ => true,
         }
     }
@@ -1040,6 +1053,13 @@ where
             Act::MuxClose { c, ans } => {
                 if let Some(m) = self.mux_of(*c) {
                     m.lock().unwrap().close_answer = *ans;
+                }
+            }
+            Act::MuxAddr { c } => {
+                if let Some(m) = self.mux_of(*c) {
+                    self.addr_changed.push(*c);
+                    m.lock().unwrap().addr_change = Some(a(90));
+                    mux_wake(&m);
                 }
             }
             Act::List { op, p } => {
@@ -1271,6 +1291,28 @@ where
                     }
                 }
                 _ => {}
+            }
+        }
+        // (3) a connection event that carries no handler-specific type (AddressChange) reaches the
+        // handler of every field exactly once per change
+        for (i, c) in self.conns.iter().enumerate() {
+            let Some(cid) = self.sys.cids.get(i) else { continue };
+            let applied = self.addr_changed.iter().filter(|&&x| x == i).count();
+            let count = |f: u8| self.full_log.iter().filter(|e| matches!(e, LogEv::HandlerAddr { f: x, cid: y, .. } if *x == f && y == cid)).count();
+            let c0 = count(0);
+            for f in 0..nf {
+                let cf = count(f);
+                if cf > applied {
+                    return Err(format!("address-change-duplicated :: handler of field {f} on c{i} got {cf} AddressChange events, the muxer reported {applied}"));
+                }
+                if quiescent && cf != c0 {
+                    return Err(format!("address-change-not-forwarded :: on c{i} the handler of field 0 got {c0} AddressChange events, the handler of field {f} got {cf}"));
+                }
+            }
+            let live = c.sw.iter().any(|s| s == "Est") && !c.sw.iter().any(|s| s == "Closed");
+            let closing = self.mux_of(i).map(|m| { let m = m.lock().unwrap(); m.close_polled > 0 || m.fail }).unwrap_or(true);
+            if quiescent && live && !closing && c0 != applied {
+                return Err(format!("address-change-lost :: the muxer of live c{i} reported {applied} address change(s), handlers got {c0}"));
             }
         }
         if quiescent {
@@ -1627,7 +1669,12 @@ pub fn run_c02(ctx: &Ctx) -> Outcome {
     run_generic::<Probe>(ctx, Which::C02, cfgs, ctx.tier.pick(4, 5), (ctx.tier.pick(3, 4), ctx.tier.pick(1, 2)))
 }
 pub fn run_c05(ctx: &Ctx) -> Outcome {
-    let cfgs = two_execs(base(Which::C05));
+    let mut cfgs = two_execs(base(Which::C05));
+    // the same with muxers whose close is asynchronous: a rejected connection must still be
+    // closed to completion, not dropped after the first poll_close
+    let mut slow = base(Which::C05);
+    slow.slow_close = 1;
+    cfgs.push(slow);
     run_generic::<Probe>(ctx, Which::C05, cfgs, ctx.tier.pick(4, 5), (ctx.tier.pick(3, 4), ctx.tier.pick(1, 2)))
 }
 pub fn run_c06(ctx: &Ctx) -> Outcome {
